@@ -92,6 +92,11 @@ def gen_cases(ctx):
                 pts0 = sorted(rng.sample(ptsets, k))
                 nent = rng.choice([1, 2, 3, 4])
                 coefs0 = [[lib.dyadic(rng, -4, 4, 6) for _ in range(k)] for _ in range(nent)]
+                for cs in coefs0:
+                    # the value at zero spacing must not be exactly 0: there the fallback test log10(ex/best) sits on a
+                    # discontinuity (0 -> -inf -> fallback; -1e-14 -> nan -> no fallback) that float round-off decides
+                    if cs[0] == 0:
+                        cs[0] = 0.5
                 base_cache = (pts0, coefs0)
             pts0, coefs0 = base_cache
             pts = [pts0[i] for i in perm]
